@@ -376,6 +376,8 @@ def c18_catalogue(quick):
         'bad-location': [U(1, links=[2]), U(2, kind='redirect', rto=0, location='http://[bad')],
         'error-forever': [U(1, links=[2, 3]), U(2, kind='error500'), U(3)],
         'drop-forever': [U(1, links=[2, 3]), U(2, kind='drop'), U(3)],
+        # a server that answers a request with interim responses and nothing else, for ever
+        'interim-forever': [U(1, links=[2, 3]), U(2, kind='interim_forever'), U(3)],
         'unauthorized': [U(1, links=[2]), U(2, kind='unauthorized')],
         'start-fails': [U(1, kind='error500')],
         # a Location header that is present but empty / blank, for several redirect codes
